@@ -97,3 +97,13 @@ Print Assumptions C01_tie_body_read_frames.
 Theorem C01_tie_pose_write : Gen_Codec.pose_write = exp_pose_write.
 Proof. exact pose_write_tie. Qed.
 Print Assumptions C01_tie_pose_write.
+
+(* ---------- class structure of the current source: overrides and attribute hooks (proofs/ClassesTie.v) ---------- *)
+Require Import ClassesTie.
+Theorem C01_tie_class_numpy_body : over_numpy_body = Some exp_over_numpy_body.
+Proof. exact over_numpy_body_tie. Qed.
+Print Assumptions C01_tie_class_numpy_body.
+Theorem C01_tie_class_subclasses : subclasses = exp_subclasses.
+Proof. exact subclasses_tie. Qed.
+Print Assumptions C01_tie_class_subclasses.
+
